@@ -256,7 +256,7 @@ func reuseDenseCheck(reuse DenseTensor, as DenseTensor) (err error) {
 
 // reuseCheckShape  checks the shape and reshapes it to be correct if the size fits but the shape doesn't.
 func reuseCheckShape(reuse DenseTensor, s Shape) (err error) {
-	if reuse.parentTensor() != nil && reuse.DataOrder().IsNotContiguous() {
+	if v, ok := reuse.(View); ok && v.IsView() && reuse.DataOrder().IsNotContiguous() {
 		// what follows takes over the reuse tensor's window as one contiguous block; the window of a
 		// non-contiguous view also holds elements of the viewed tensor that are not the view's
 		return errors.Errorf(methodNYI, "reuse", "non-contiguous views")
@@ -281,9 +281,9 @@ func reuseCheckShape(reuse DenseTensor, s Shape) (err error) {
 		}
 	}
 
-	if viewOf := reuse.parentTensor(); viewOf != nil {
-		reuse.setParentTensor(nil)
-	}
+	// (the parent is recorded as a bare address: it is only compared and cleared, never turned back into a
+	// pointer - the viewed tensor may be gone, and the collector aborts the program over a pointer into freed memory)
+	reuse.setParentTensor(nil)
 	return nil
 }
 
